@@ -35,8 +35,25 @@ for m in order:
     except BaseException as e:
         steps.append("fail:" + type(e).__name__)
         break
+def plain(x, depth=0):
+    # public class-level state, canonically: numbers / strings / None, classes and functions by name, containers of those
+    if isinstance(x, (str, int, float, bool, type(None))): return repr(x)
+    if inspect.isclass(x) or inspect.isfunction(x): return "<" + getattr(x, "__module__", "?") + "." + getattr(x, "__qualname__", "?") + ">"
+    if depth < 3 and isinstance(x, (list, tuple)): return "[" + ",".join(plain(y, depth + 1) for y in x) + "]"
+    if depth < 3 and isinstance(x, (set, frozenset)): return "{" + ",".join(sorted(plain(y, depth + 1) for y in x)) + "}"
+    if depth < 3 and isinstance(x, dict): return "{" + ",".join(plain(k, depth + 1) + ":" + plain(y, depth + 1) for k, y in x.items()) + "}"
+    return "<" + type(x).__name__ + ">"
+def class_state(c):
+    import hashlib
+    items = []
+    for k, x in sorted(vars(c).items()):
+        if k.startswith("_") or callable(x) or isinstance(x, (property, classmethod, staticmethod)) or hasattr(x, "__get__"): continue
+        items.append(k + "=" + plain(x))
+    return hashlib.sha256("|".join(items).encode("utf-8", "replace")).hexdigest()[:12] if items else ""
 def descr(v):
     if isinstance(v, types.ModuleType): return ["module", v.__name__]
+    if inspect.isclass(v) and getattr(v, "__module__", "").startswith("chartparse."):
+        return ["obj", v.__module__, getattr(v, "__qualname__", "?"), "state:" + class_state(v)]
     if inspect.isclass(v) or inspect.isfunction(v): return ["obj", getattr(v, "__module__", "?"), getattr(v, "__qualname__", "?")]
     if isinstance(v, (str, int, float, bool, type(None))): return ["const", repr(v)]
     r = repr(v)
@@ -121,7 +138,7 @@ def slice(ctx: fw.Ctx) -> fw.Outcome:
                                   f"after import order {o} module {mod} binds names differently from the reference order",
                                   replay, observed=str(diff)[:500], promised="identical namespaces")
                     break
-                stale = [k for k, d in ns.items() if d[0] == "obj" and len(d) > 3 and d[3] is False]
+                stale = [k for k, d in ns.items() if d[0] == "obj" and d[-1] is False]
                 if stale:
                     out.violation("stale-" + key + "-" + mod, f"after import order {o} module {mod} holds stale objects {stale}",
                                   replay, observed=stale, promised="names bound to the defining module's current objects")
